@@ -24,14 +24,26 @@ OBLIGATIONS = [
     ob('LD_daycount', ['LD'], enc=['__jan00', '__doy', '__get_mdays'], bounds='every date 1901..2099', timeout=120),
     ob('L1_diff_timed', ['L1', 'KIND=0'], solver='cvc5int', checks=[], enc=['echs_instant_diff', '__jan00', '__doy'], bounds='all pairs of valid timed instants 1901..2099, both signs'),
     ob('L1_diff_allday', ['L1', 'KIND=1'], solver='cvc5int', checks=[], enc=['echs_instant_diff'], bounds='all pairs of all-day instants'),
-    ob('L1_diff_allsec', ['L1', 'KIND=2'], solver='cvc5int', checks=[], enc=['echs_instant_diff'], bounds='all pairs of all-second instants'),
-    ob('L2_add_allday_400d', ['L2', 'KIND=1', 'WDAYS=400'], enc=['echs_instant_add', '__get_mdays'], bounds='|d| <= 400 days (month walk unwound 16)', outside='durations beyond 400 days'),
-    ob('L2_add_timed_days_400d', ['L2', 'KIND=0', 'WDAYS=400', 'REM0'], enc=['echs_instant_add'], bounds='whole-day durations |d| <= 400 days on timed instants'),
-    ob('L2_add_timed_subday', ['L2', 'KIND=0', 'WDAYS=0'], enc=['echs_instant_add'], bounds='|d| < 1 day at ms resolution (full carry chain, day carry +-1)'),
-    ob('L2_add_allsec_subday', ['L2', 'KIND=2', 'WDAYS=0'], enc=['echs_instant_add'], bounds='|d| < 1 day at second resolution'),
+    ob('L1_diff_allsec', ['L1', 'KIND=2'], solver='cvc5int', checks=[], tiers=('thorough',), timeout=3000, enc=['echs_instant_diff'], bounds='all pairs of all-second instants'),
+        ob('L2_add_allday_62d', ['L2', 'KIND=1', 'WDAYS=62'], enc=['echs_instant_add', '__get_mdays'], bounds='|d| <= 62 days', outside='longer durations (thorough: 400 days)', unwindset={'echs_instant_add.*': 5}),
+    ob('L2_add_timed_days_62d', ['L2', 'KIND=0', 'WDAYS=62', 'REM0'], enc=['echs_instant_add'], bounds='whole-day durations |d| <= 62 days on timed instants', unwindset={'echs_instant_add.*': 5}),
+    ob('L2_add_allday_400d', ['L2', 'KIND=1', 'WDAYS=400'], enc=['echs_instant_add', '__get_mdays'], bounds='|d| <= 400 days (month walk unwound 16)', tiers=('thorough',), timeout=2400),
+    ob('L2_add_timed_days_400d', ['L2', 'KIND=0', 'WDAYS=400', 'REM0'], enc=['echs_instant_add'], bounds='whole-day durations |d| <= 400 days on timed instants', tiers=('thorough',), timeout=2400),
+    ob('L2_add_timed_ms', ['L2', 'KIND=0', 'WDAYS=0', 'REMMAX=1000'], enc=['echs_instant_add'], bounds='|d| < 1 s at ms resolution: the whole carry chain ms->s->min->h->day->month->year'),
+    ob('L2_add_timed_sec', ['L2', 'KIND=0', 'WDAYS=0', 'REMMAX=60000', 'REMSTEP=1000'], enc=['echs_instant_add'], bounds='|d| < 1 min in whole seconds', tiers=('thorough',), timeout=3000),
+    ob('L2_add_timed_min', ['L2', 'KIND=0', 'WDAYS=0', 'REMMAX=3600000', 'REMSTEP=60000'], enc=['echs_instant_add'], bounds='|d| < 1 h in whole minutes', tiers=('thorough',), timeout=3000),
+    ob('L2_add_timed_hour', ['L2', 'KIND=0', 'WDAYS=0', 'REMSTEP=3600000'], enc=['echs_instant_add'], bounds='|d| < 1 day in whole hours', tiers=('thorough',), timeout=3000),
+    ob('L2_add_timed_subday', ['L2', 'KIND=0', 'WDAYS=0'], enc=['echs_instant_add'], bounds='|d| < 1 day at ms resolution (full carry chain, day carry +-1)', tiers=('thorough',), timeout=3400),
+    ob('L2_add_allsec_subday', ['L2', 'KIND=2', 'WDAYS=0'], enc=['echs_instant_add'], bounds='|d| < 1 day at second resolution', tiers=('thorough',), timeout=3400),
     ob('L2_add_timed_40d', ['L2', 'KIND=0', 'WDAYS=40'], enc=['echs_instant_add'], bounds='any duration |d| <= 40 days at ms resolution', tiers=('thorough',), timeout=3000, solver='cadical'),
     ob('L3_fixup', ['L3'], enc=['echs_instant_fixup', '__get_mdays'], bounds='month <= 36, day <= 62, hour <= 48, minute <= 120, second <= 62, ms <= 1022'),
-    ob('L4A_to_epoch', ['L4A'], src='inst.c', incl=None, units=['src/instant.c', 'src/tzob.c'], enc=['echs_instant_to_epoch', '__inst_to_epoch'], bounds='all valid timed instants 1901..2099', allow_nobody=TZ_NOBODY),
-    ob('L4B_from_epoch', ['L4B'], src='inst.c', incl=None, units=['src/instant.c', 'src/tzob.c'], enc=['epoch_to_echs_instant', '__epoch_to_inst'], bounds='all epoch seconds of 1901..2099', allow_nobody=TZ_NOBODY),
+    ob('L4A_to_epoch', ['L4A', 'ORC_FAST'], src='inst.c', incl=None, units=['src/instant.c', 'src/tzob.c'], solver='cvc5int', checks=[], replay_units='all',
+       enc=['echs_instant_to_epoch', '__inst_to_epoch'], bounds='all valid timed instants 1901..2099', allow_nobody=TZ_NOBODY),
+    ob('L4B_from_epoch_days', ['L4B', 'ORC_FAST', 'DATEONLY'], src='inst.c', incl=None, units=['src/instant.c', 'src/tzob.c'], replay_units='all', checks=['--bounds-check'],
+       enc=['epoch_to_echs_instant', '__epoch_to_inst', 'echs_instant_to_epoch'], bounds='every midnight stamp of 1901..2099 (date part; both directions mutually inverse)', allow_nobody=TZ_NOBODY),
+    ob('L4B_from_epoch_day1970', ['L4B', 'ORC_FAST', 'ONEDAY'], src='inst.c', incl=None, units=['src/instant.c', 'src/tzob.c'], replay_units='all', checks=['--bounds-check'],
+       enc=['epoch_to_echs_instant', '__epoch_to_inst'], bounds='every second of the days 1969-12-31 and 1970-01-01 (time part, both signs of the stamp)', allow_nobody=TZ_NOBODY),
+    ob('L4B_from_epoch', ['L4B', 'ORC_FAST'], src='inst.c', incl=None, units=['src/instant.c', 'src/tzob.c'], replay_units='all', checks=['--bounds-check'], tiers=('thorough',), timeout=3400,
+       enc=['epoch_to_echs_instant', '__epoch_to_inst', 'echs_instant_to_epoch'], bounds='all epoch seconds of 1901..2099', allow_nobody=TZ_NOBODY),
     ob('L6_order', ['L6'], src='inst.c', incl=None, units=['src/instant.c'], enc=['echs_instant_lt_p', 'echs_instant_le_p'], bounds='all pairs of valid instants, all kind combinations'),
 ]
